@@ -16,6 +16,8 @@ CLASSES = {
     "list_ActionCall": {"fields": {"items": ("seq", ("ref", "ActionCall"))}, "bases": [], "lib": True},
     # ordered dict  str -> ref : key order + content; membership == Contains(keys, Unit(k)); keys distinct
     "dict_str_ref": {"fields": {"keys": ("seq", "str"), "map": ("map", "str", "int")}, "bases": [], "lib": True},
+    "dict_PDDLObject": {"fields": {"keys": ("seq", "str"), "map": ("map", "str", "int")}, "bases": [], "lib": True, "elem": "PDDLObject"},
+    "dict_PDDLType": {"fields": {"keys": ("seq", "str"), "map": ("map", "str", "int")}, "bases": [], "lib": True, "elem": "PDDLType"},
     "dict_str_str": {"fields": {"keys": ("seq", "str"), "map": ("map", "str", "str")}, "bases": [], "lib": True},
     # repository classes ---------------------------------------------------------------------------
     "PDDLTokenizer": {"fields": {"pddl_file_content": ("ref", "list_str")}, "bases": [],
@@ -37,16 +39,16 @@ CLASSES = {
                          "state_fluents": ("ref", "opaque")}, "bases": [],
               "src": ("models.pddl_state", "State")},
     "opaque": {"fields": {}, "bases": [], "lib": True},
-    "Domain": {"fields": {"name": "str", "types": ("ref", "dict_str_ref"), "constants": ("ref", "dict_str_ref"),
+    "Domain": {"fields": {"name": "str", "types": ("ref", "dict_PDDLType"), "constants": ("ref", "dict_PDDLObject"),
                           "predicates": ("ref", "dict_str_ref"), "functions": ("ref", "dict_str_ref"), "actions": ("ref", "dict_str_ref")},
                "bases": [], "src": ("models.pddl_domain", "Domain")},
-    "ProblemParser": {"fields": {"domain": ("ref", "Domain"), "problem": ("ref", "opaque")}, "bases": [],
+    "ProblemParser": {"fields": {"domain": ("ref", "Domain"), "problem": ("ref", "Problem")}, "bases": [],
                       "src": ("lisp_parsers.problem_parser", "ProblemParser")},
     "TrajectoryExporter": {"fields": {"domain": ("ref", "Domain"), "allow_invalid_actions": "bool"}, "bases": [],
                            "src": ("exporters.numeric_trajectory_exporter", "TrajectoryExporter")},
     "TrajectoryTriplet": {"fields": {"previous_state": ("ref", "State"), "operator": ("ref", "opaque"), "next_state": ("ref", "State")},
                           "bases": [], "src": ("exporters.numeric_trajectory_exporter", "TrajectoryTriplet")},
-    "Problem": {"fields": {"objects": ("ref", "opaque"), "initial_state_predicates": ("ref", "opaque"),
+    "Problem": {"fields": {"objects": ("ref", "dict_PDDLObject"), "initial_state_predicates": ("ref", "opaque"),
                            "initial_state_fluents": ("ref", "opaque")}, "bases": [], "src": ("models.pddl_problem", "Problem")},
     "Action": {"fields": {"name": "str", "signature": ("ref", "dict_str_ref"), "preconditions": ("ref", "CompoundPrecondition"),
                           "discrete_effects": ("ref", "opaque"), "numeric_effects": ("ref", "opaque"),
